@@ -31,6 +31,7 @@ POOLS = {
     'boolean': [True, False],
     'object-str': ['', 'a', 'ab', 'é£'],
     'object-strnan': ['', 'a', 'ab'],
+    'category-int': [1, 2, 30],
     'object-strx': ["a'b", 'a b', 'A1', '\\d', '^-', 'x\ny', '١٢', 'x²', 'a"b'],
     'category': ['a', 'bb', ''],
     'string': ['a', 'bb', ''],
@@ -47,7 +48,7 @@ NULLABLE = {'Int64', 'float64', 'float64x', 'boolobj', 'boolean', 'object-str', 
 EXPECTED_TTYPE = {
     'int64': 'int', 'int8': 'int', 'uint8': 'int', 'Int64': 'int', 'int64big': 'int', 'uint64': 'int',
     'float64': 'real', 'float64x': 'real', 'bool': 'bool', 'boolobj': 'bool',
-    'boolean': 'bool', 'object-str': 'string', 'object-strx': 'string', 'object-strnan': 'string',
+    'boolean': 'bool', 'category-int': 'string', 'object-str': 'string', 'object-strx': 'string', 'object-strnan': 'string',
     'category': 'string', 'string': 'string', 'datetime64[ns]': 'date',
     'datetime64[us]': 'date', 'datetime64[ms]': 'date', 'datetime64[s]': 'date',
     'datetime-tz': 'date', 'dateobj': 'date',
@@ -75,7 +76,7 @@ def make_series(family, values):
     if family == 'object-strnan':
         # nulls are fresh float NaN objects, not None and not the numpy singleton
         return pd.Series([float('nan') if v is None else v for v in vals], dtype=object)
-    if family == 'category':
+    if family in ('category', 'category-int'):
         return pd.Series(pd.Categorical(vals))
     if family == 'string':
         return pd.Series(vals, dtype='string')
